@@ -7,7 +7,9 @@ micro-ops of the instruction) after balancing; totals = rounded column sums over
 throughput != 0.  Evaluated by TLC (Trace_Port) on every snapshot taken from the real code.
 
 R1  TLC model-checks the balancer state machine PortSched (Level B) on two-micro-op forms over all
-    overlapping pairs of subsets of 3 ports: with the per-micro-op budget carried across passes
+    ordered pairs of subsets of 3 ports plus the single-micro-op forms, kernels of length <= 2
+    (thorough: 3192 kernels; quick: the overlapping pairs, 127 kernels): with the per-micro-op
+    budget carried across passes
     FeasibleAll is an invariant (LevelB => LevelA); with the named deviation CapsResetPerPass (what
     the code does) TLC exhibits the two-pass counterexample (MC_PortSched_f1) and the terminal
     states of all kernels are emitted with the model's verdict.
@@ -17,7 +19,7 @@ R2  Every emitted kernel is rendered to a synthetic YAML model and run through a
     a violation) and the kernels the model predicts infeasible with those TLC rejects.
 R3  Seeded random synthetic port models (2-6 ports, multi-character names, overlapping / nested /
     disjoint sets, 1-3 micro-ops, cycles 0.5-3, alternative assignments, forms without throughput,
-    comment/label/unknown lines) and shipped models x shipped example/test kernels, observed at
+    memory forms composed with load/store multipliers, comment/label/unknown lines) and shipped models x shipped example/test kernels, observed at
     the API after each stage and end-to-end through full_analysis_dict; validated by TLC."""
 import collections
 import json
@@ -35,7 +37,7 @@ STAGES = ("uniform", "dict-uniform", "opt1", "opt2", "dict-opt2")
 # ---------------------------------------------------------------------------------- R1
 def r1(run, tier):
     cfgs = {"ideal": "MC_PortSched_quick_ideal", "code": "MC_PortSched_quick_code"} if tier == "quick" else \
-           {"ideal": "MC_PortSched_overlap_ideal", "code": "MC_PortSched_overlap_code"}
+           {"ideal": "MC_PortSched_multi_ideal", "code": "MC_PortSched_multi_code"}
     os.makedirs(tlc.WORK, exist_ok=True)
     outs = {k: os.path.join(tlc.WORK, "c01-%s.ndjson" % k) for k in cfgs}
     for p in outs.values():
@@ -172,8 +174,8 @@ def _brief(rec, stage=None, case=None):
 
 # ---------------------------------------------------------------------------------- R2
 def r2(run, tier, code):
-    overlap = True
-    model = pc.multi_model(overlap)
+    # quick: MC_PortSched!OverlapForms (quick kernels); thorough: MC_PortSched!MultiForms (all kernels <= 2)
+    model = pc.multi_model(tier == "quick")
     d = env.scratch("c01-r2")
     path = pc.render_model(os.path.join(d, "multi.yml"), model)
     recs, items = [], []
